@@ -26,6 +26,16 @@ CLAIMED["C18"] = ("exploration", "4 C18", "deterministic simulation: push/into_s
             "Seeded search over (types, bit triples, multisets, pass histories, disk behaviour); conservation, shard placement, shard_sizes and pass agreement are checked after every pass.",
             "Trusted: SimFile, the multiset model. Hard disk faults may surface as Err or unwinding panic; a reported success must still conserve.")
 
+BITS_NOTE = "Trusted: the bit-level storage model (a Vec<bool> laid out LSB-first), the interpreter. Sampling of histories, not enumeration; sizes bounded (a few hundred elements, a share of multi-megabit vectors for the par_ operations)."
+CLAIMED["C05"] = ("exploration", "4 C05/C06", "deterministic simulation: seeded operation histories on BitFieldVec (all word types, widths 0..=W::BITS) with rejected calls injected, full observation against a Vec<u128> model after every step, shrinking to a minimal history",
+            "What the simulator adds to input generation is the state the history leaves behind (shrink-then-regrow, stale bits, spare capacity words, atomic round trips) and the injected rejected calls, which must unwind and change nothing.", BITS_NOTE)
+CLAIMED["C06"] = ("exploration", "4 C05/C06", "deterministic simulation: seeded operation histories on BitVec/AtomicBitVec with rejected calls injected, full observation against a Vec<bool> model after every step",
+            "Same interpreter as C05 for bit vectors: every observation (get, iter, iter_ones, iter_zeros, counts, equality, to_owned, atomic get/set/swap) is compared after every step of the history.", BITS_NOTE)
+CLAIMED["C10"] = ("exploration", "4 C10", "deterministic simulation: bulk operations (copy, apply_in_place, reset/fill/flip/count and par_ variants under a drawn rayon pool width, try_chunks_mut, get_unaligned) inside histories on growable and on simulator-owned garbage-filled storage, element-wise model",
+            "Weak fit, stated as such: the simulator-owned dimensions are the storage (spare words, garbage) and the pool width; the rest of the quantifier is seeded generation compared with the per-element definition.", BITS_NOTE)
+CLAIMED["C14"] = ("exploration", "4 C14", "deterministic simulation with storage fault injection: vectors over simulator-owned storage whose slack bits and spare words hold garbage re-scrambled between operations; bit-exact storage model checked after every read and write",
+            "Core fit: the storage is the fault surface. Read clause and write clause are both checked after every step of every history.", BITS_NOTE)
+
 NA = {
     "C03": "pure function of (values, n, u, selection back-end): no schedule, fault, stream or shared state for a simulator to own; the concurrent-builder clause is decided under C13",
     "C04": "pure function of (sequence, query): nothing to schedule or fault",
@@ -40,10 +50,6 @@ NA = {
 PENDING = {
     "C01": "check not built yet in this snapshot (planned: simcheck ranksel world, see DESIGN.md 4)",
     "C02": "check not built yet in this snapshot (planned: simcheck ranksel world)",
-    "C05": "check not built yet in this snapshot (planned: simcheck bits world)",
-    "C06": "check not built yet in this snapshot (planned: simcheck bits world)",
-    "C10": "check not built yet in this snapshot (planned: simcheck bits world)",
-    "C14": "check not built yet in this snapshot (planned: simcheck bits world)",
     "C15": "check not built yet in this snapshot (planned: simcheck serde world)",
 }
 
